@@ -302,7 +302,11 @@ def run_witness(binpath, w):
                     good = [sample(t, False) for t in params]
                     first = 1 if is_m else 0
                     for k in range(first, len(params)):
-                        for wrongv in (sample(params[k], True), "None", '"x"'):
+                        wrongs = [sample(params[k], True), "None", '"x"']
+                        if params[k].strip().startswith("List"):
+                            # a list whose static element type is not what it holds at run time
+                            wrongs += ['[1, 2].append("x")', '["a"].append(1)', "[None]", "[[]]"]
+                        for wrongv in wrongs:
                             progs.append(call(good[:k] + [wrongv] + good[k + 1:]))
                     if len(params) > first:
                         progs.append(call(good[:-1]))
